@@ -139,9 +139,13 @@ func TestC14_BscReplay(t *testing.T) {
 			}
 		}
 		for k := 0; k < 3; k++ {
-			again := bscHistory(&Tape{Vals: rc.tape}, steps)
+			tape := &Tape{Vals: rc.tape, Lenient: true}
+			again := bscHistory(tape, steps)
 			if d := firstDiff(first.verdicts, again.verdicts); d != "" {
 				t.Fatalf("two replays of the same BSC header history disagree: %s", d)
+			}
+			if tape.Off {
+				kit.Failf("replay with equal verdicts asked for other choices than the recorded run")
 			}
 			if again.digest != first.digest {
 				t.Fatalf("two replays of the same BSC header history end in different client stores")
